@@ -101,6 +101,32 @@ fn main() -> color_eyre::Result<()> {
     Ok(())
 }
 
+/// Passes writes through until one fails; from then on everything is swallowed and the error is kept.
+struct ErrorRecordingWriter<W: std::io::Write> {
+    inner: W,
+    error: Option<std::io::Error>,
+}
+
+impl<W: std::io::Write> std::io::Write for ErrorRecordingWriter<W> {
+    fn write(&mut self, buf: &[u8]) -> std::io::Result<usize> {
+        if self.error.is_none() {
+            if let Err(err) = self.inner.write_all(buf) {
+                self.error = Some(err);
+            }
+        }
+        Ok(buf.len())
+    }
+
+    fn flush(&mut self) -> std::io::Result<()> {
+        if self.error.is_none() {
+            if let Err(err) = self.inner.flush() {
+                self.error = Some(err);
+            }
+        }
+        Ok(())
+    }
+}
+
 fn compress(input: PathBuf, output: PathBuf, level: u8) -> color_eyre::Result<()> {
     info!("compressing {input:?} to {output:?}");
     let compression_level: ruzstd::encoding::CompressionLevel = match level {
@@ -123,9 +149,24 @@ fn compress(input: PathBuf, output: PathBuf, level: u8) -> color_eyre::Result<()
     let source_size = source_file.metadata()?.len() as usize;
     let buffered_source = BufReader::new(source_file);
     let encoder_input = ProgressMonitor::new(buffered_source, source_size);
-    let output: File = File::create(output).wrap_err("failed to open output file for writing")?;
+    let output_path = output;
+    let output: File =
+        File::create(&output_path).wrap_err("failed to open output file for writing")?;
 
-    ruzstd::encoding::compress(encoder_input, &output, compression_level);
+    // The library compressor unwraps the results of its writes. Hand it a writer that remembers
+    // the first error instead, so that a full disk is reported through the exit status and no
+    // truncated archive is left behind.
+    let mut sink = ErrorRecordingWriter {
+        inner: &output,
+        error: None,
+    };
+    ruzstd::encoding::compress(encoder_input, &mut sink, compression_level);
+    if let Some(err) = sink.error {
+        if output.metadata().map(|m| m.is_file()).unwrap_or(false) {
+            let _ = std::fs::remove_file(&output_path);
+        }
+        return Err(err).wrap_err("failed to write the output file");
+    }
     let compressed_size = output.metadata()?.len();
     let compression_ratio = compressed_size as f64 / source_size as f64 * 100.0;
     info!(
